@@ -328,7 +328,9 @@ def write_replay(prop, name, obj):
 
 
 def write_evidence(prop, ev):
-    d = os.path.join(VERIF, "evidence")
+    # VERIF_EVIDENCE_DIR: used by tools/seed_*.sh so that a run against a deliberately changed /repo never overwrites
+    # the evidence of the unchanged tree
+    d = os.environ.get("VERIF_EVIDENCE_DIR") or os.path.join(VERIF, "evidence")
     os.makedirs(d, exist_ok=True)
     with open(os.path.join(d, prop + ".json"), "w") as f:
         json.dump(ev, f, indent=1, ensure_ascii=False)
